@@ -352,11 +352,27 @@ func c17Case(k *fw.K, shape []int, lr lrSpec, src int) {
 			k.Failf("weight / gradient unreadable or gradient of shape %v for weight %v (%v %v)", gv, shape, e1, e2)
 			return
 		}
+		var penaltyG tensor.Tensor
 		if k.Rng.Intn(6) == 0 && src != 6 {
 			// the caller re-arms the GRADIENT tensor (gradient clipping / logging code that wants to differentiate through it later): it is
 			// still w's current gradient with the same values, and no operand of a graph awaiting its backward pass
 			oldG.ResetGradContext(true)
 			k.Count("updates_after_the_gradient_tensor_was_re_armed_by_the_caller", 1)
+			if k.Rng.Intn(2) == 0 {
+				// ... and has differentiated through it already (a gradient penalty |g|^2 back-propagated before the step): the gradient
+				// tensor now holds a gradient of its own, which the step leaves alone like everything else about that tensor
+				var perr error
+				if p := call(func() { perr = tensor.BackPropagate(oldG.Pow(2)) }); p != nil || perr != nil {
+					k.Failf("gradient penalty over the re-armed gradient tensor: panic=%v err=%v", p, perr)
+					return
+				}
+				penaltyG = oldG.Gradient()
+				if penaltyG == nil {
+					k.Failf("the re-armed gradient tensor received no gradient from the penalty graph")
+					return
+				}
+				k.Count("updates_after_a_penalty_graph_over_the_gradient_tensor", 1)
+			}
 		}
 		slot = w
 		if k.Index%5 == 1 {
@@ -404,6 +420,16 @@ func c17Case(k *fw.K, shape []int, lr lrSpec, src int) {
 		if e := rt.Compare(oldG, gv, 0, 0, nil, 0); e != nil {
 			k.Failf("Update changed the previous tensor's gradient: %v", e)
 			return
+		}
+		if penaltyG != nil {
+			if oldG.Gradient() != penaltyG {
+				k.Failf("Update changed the gradient tensor of the previous tensor: before the step it held a gradient of its own (from a penalty graph the caller back-propagated), afterwards Gradient() of it is nil=%v", oldG.Gradient() == nil)
+				return
+			}
+			if st, ok := tensor.VerifGradState(oldG); ok && (!st.Tracked || !st.BPDirty) {
+				k.Failf("Update changed the tracking state of the previous tensor's gradient tensor: tracked=%v spent=%v (it was a tracked, back-propagated leaf)", st.Tracked, st.BPDirty)
+				return
+			}
 		}
 	}
 }
